@@ -126,6 +126,7 @@ def run_obligations(tier, seed):
         covered = 0
         viol_state = None   # (b) the snapshot's records reach the state machine
         viol_meta = None    # (a), (c), (d) catalogue, membership, log
+        viol_order = None   # C04: a process death between two messages of the installation
         for pc, rr, exc in paths:
             if exc is not None:
                 viol_meta = {"message": "panic while a snapshot is installed: %s" % exc, "tags": ["panic"], "model": {}}
@@ -149,6 +150,17 @@ def run_obligations(tier, seed):
                                      "installed-snapshot-not-loaded", evs)
                 elif not comp or comp[0] < max(recs):
                     viol_state = ask(pc, True, "the installed snapshot's records are delivered but the load-complete notification does not follow", "installed-snapshot-no-load-complete", evs)
+            if not viol_order:
+                # what each collaborator persists when it gets its message: InstallSnapshot -> the index file's catalogue names the snapshot;
+                # SplitOff / InstallSnapshotPointerLog -> the log loses the entries up to delete_through / its catalogue starts at the pointer.
+                # Behind every prefix of the emissions the entries removed from the log must be under a catalogued snapshot.
+                pos_cat = [i for i, e in enumerate(evs) if e[0] == "SnapAddr" and e[1] == "InstallSnapshot"]
+                pos_log = [i for i, e in enumerate(evs) if e[0] == "LogAddr" and e[1] in ("SplitOff", "InstallSnapshotPointerLog")]
+                if pos_log and (not pos_cat or pos_cat[0] > pos_log[0]):
+                    k = pos_log[0]
+                    viol_order = ask(pc, True, "a process death behind message %d of the installation (%s <- %s) leaves the log cut / re-based on the snapshot pointer while the "
+                                               "snapshot catalogue does not name the installed snapshot yet: the entries removed from the log are neither in the log nor under a "
+                                               "catalogued snapshot after the restart" % (k + 1, evs[k][0], evs[k][1]), "log-cut-before-catalogue", evs[:k + 1])
             if not viol_meta:
                 sm = [e for e in evs if e[0] == "IndexAddr" and e[1] == "SaveMember"]
                 if not sm:
@@ -163,7 +175,8 @@ def run_obligations(tier, seed):
                     viol_meta = ask(pc, rseval.to_bv(so[0][2][0]) != want, "the log is split off at an index other than delete_through + 1", "log-not-adjusted", evs)
         out = []
         for name, viol, what in (("s08_1_installed_state_is_served", viol_state, "every record of the installed snapshot reaches the state machine, then load-complete"),
-                                 ("s08_2_catalogue_membership_log", viol_meta, "catalogue entry, membership of the header, log split-off and snapshot pointer entry")):
+                                 ("s08_2_catalogue_membership_log", viol_meta, "catalogue entry, membership of the header, log split-off and snapshot pointer entry"),
+                                 ("s04_6_installation_write_order", viol_order, "behind every prefix of the installation's messages the log is only cut once the catalogue names the snapshot")):
             o = dict(ob)
             o["harness"] = name
             o["bound"] = ob["bound"] + "; oracle: " + what
@@ -183,10 +196,18 @@ def run_obligations(tier, seed):
     return [ob]
 
 
+def run_c04_order(tier, seed):
+    """the write-order obligation of a snapshot installation (claimed under C04)"""
+    obs = [o for o in run_obligations(tier, seed) if o["harness"].startswith("s04_") or o.get("verdict") == "inconclusive"]
+    ob = obs[0]
+    ob["harness"] = "s04_6_installation_write_order"
+    return ob
+
+
 def run(tier, seed):
     t0 = time.time()
     info = {"files": FILES, "solver": "z3 " + z3.get_version_string(), "cmd": "python3-vt -m lib.main C08 (rs2smt/c08.py)"}
-    obligations = run_obligations(tier, seed)
+    obligations = [o for o in run_obligations(tier, seed) if not o["harness"].startswith("s04_")]
     import os
     from .common import native_scenarios
     if not os.environ.get("VERIF_NO_NATIVE"):
